@@ -106,6 +106,8 @@ structure FinRel (s5 s8 : State) (m : Nat) (v : Int) (saved : Option Nat) : Prop
   flags : FlagRel s5 s8
   logx : LogExt ChgEv s5 s8
   runs_m : (s8.get m).runs = (s5.get m).runs
+  chg : ∃ suf, s8.log = s5.log ++ suf ∧ (∀ w, Ev.ran w ∉ suf) ∧
+    ((s8.get m).ver ≠ (s5.get m).ver → Ev.changed m ∈ suf)
 
 theorem finish_inv {p : Prog} {s5 s8 : State} {m : Nat} {v : Int} {saved : Option Nat}
     (h5 : InvR p s5) (loc : RunLoc s5 m) (fr : FinRel s5 s8 m v saved)
@@ -392,7 +394,15 @@ theorem finishRun_rel {p : Prog} {s5 : State} {m : Nat} (f : Nat) (old : Option 
         exact ⟨[.changed m], by simp [log7], fun ev hev => by
           rw [List.mem_singleton.1 hev]; exact .inr ⟨_, rfl⟩⟩
       exact h57.trans (sp.rel.logx.mono (fun _ h => h.chg))
-    refine ⟨⟨?_, ?_, ?_, ?_, ?_, st8m, ?_, ?_, ?_, ?_, ?_, ?_, ?_, ?_, hfl8, hlx8, by rw [sp.rel.runs, ge, g7m]⟩, hch.symm, fun _ => by rw [verm]; omega, ?_, ?_⟩
+    have hchg8 : ∃ suf, s8.log = s5.log ++ suf ∧ (∀ w, Ev.ran w ∉ suf) ∧
+        ((s8.get m).ver ≠ (s5.get m).ver → Ev.changed m ∈ suf) := by
+      obtain ⟨w, hw, gw⟩ := sp.rel.logx
+      refine ⟨.changed m :: w, ?_, fun i hi => ?_, fun _ => List.mem_cons_self⟩
+      · rw [hw, ← hs7e]; simp [log7]
+      · rcases List.mem_cons.1 hi with hi | hi
+        · cases hi
+        · obtain ⟨j, hj⟩ := gw _ hi; cases hj
+    refine ⟨⟨?_, ?_, ?_, ?_, ?_, st8m, ?_, ?_, ?_, ?_, ?_, ?_, ?_, ?_, hfl8, hlx8, by rw [sp.rel.runs, ge, g7m], hchg8⟩, hch.symm, fun _ => by rw [verm]; omega, ?_, ?_⟩
     · rw [sp.rel.len]; subst hs7e; exact len7
     · rw [sp.rel.obs]; exact obs7e
     · intro hl
@@ -429,7 +439,8 @@ theorem finishRun_rel {p : Prog} {s5 : State} {m : Nat} (f : Nat) (old : Option 
   · rw [if_neg hch]
     have hch' : (old != some v) = false := by simpa using hch
     refine ⟨⟨len7, obs7, fun hl i => by rw [log7]; exact hl i, by rw [g7m], by rw [g7m], by rw [g7m],
-      by rw [g7m], by rw [g7m], by rw [g7m], by rw [g7m], ver7, ?_, ?_, ?_, ?_, LogExt.of_eq log7, by rw [g7m]⟩, hch'.symm, ?_, ?_, ?_⟩
+      by rw [g7m], by rw [g7m], by rw [g7m], by rw [g7m], ver7, ?_, ?_, ?_, ?_, LogExt.of_eq log7, by rw [g7m],
+      ⟨[], by simp [log7], fun _ h => (by cases h), fun hne => absurd (by rw [g7m]; simp [hch']) hne⟩⟩, hch'.symm, ?_, ?_, ?_⟩
     · intro i hi; rw [g7o i hi]; exact ⟨rfl, .inl rfl⟩
     · intro i hi hne; rw [g7o i hi] at hne; exact absurd rfl hne
     · intro i hi hd; rw [g7o i hi] at hd; exact .inl hd
@@ -580,7 +591,7 @@ theorem runMemo_spec {p : Prog} (hp : MemoOK p) {f : Nat} (hu : UpdOK p (upd p f
   have h8 := finish_inv ep.inv ep.loc fr hrep' hsaved hH
   have fr58 := finish_frame ep.inv ep.loc fr
   have hver5 : (s5.get m).ver = (s0.get m).ver := ep.ver.trans (t.ver m)
-  refine ⟨h8, fr05.trans fr58, fr.obs, ?_, fun _ => fr.st_m, fr.subs_m.trans hsubs5, ?_, ?_, ?_, ?_, ?_, ?_⟩
+  refine ⟨h8, fr05.trans fr58, fr.obs, ?_, fun _ => fr.st_m, fr.subs_m.trans hsubs5, ?_, ?_, ?_, ?_, ?_, ?_, ?_⟩
   · intro i
     by_cases hi : i = m
     · subst hi; rw [hr]; exact fr.running_m
@@ -668,6 +679,31 @@ theorem runMemo_spec {p : Prog} (hp : MemoOK p) {f : Nat} (hu : UpdOK p (upd p f
     have g58 : StateGF p s5 s8 :=
       StateGF.of_plain (fr.logx.mono (fun _ h => h.plain)) (fr58.sigEq ep.inv)
     exact (g04.trans (ep.gf hwf htr)).trans g58
+  · -- one run per change, in the log
+    have c04 : CRI p s0 s4 := by
+      intro hc
+      obtain ⟨pre, hl, hpre⟩ := t.logs
+      refine ChgRel.of_ran hc hl hpre t.seen_m (fun i hi => t.seen i hi) t.ver (by rw [t.gm]; simp)
+        (fun i hi => t.runs i hi) (fun hruns => ?_)
+      obtain ⟨e, he, hne⟩ := hj hruns
+      refine ⟨e, he, ?_, hne⟩
+      have hsrc : e.1 ∈ (s0.get m).sources := by
+        rw [h0.srcSeen m hk hr]; exact List.mem_map_of_mem he
+      exact h0.notEffP (h0.srcData m e.1 hsrc)
+    have c58 : CRI p s5 s8 := by
+      intro _
+      obtain ⟨suf, hl, hnr, hcm⟩ := fr.chg
+      refine ChgRel.of_noRan hl hnr (fun w => ?_) (fun x _ hne => ?_) (fun w hw => ?_)
+      · by_cases hw : w = m
+        · subst hw; exact fr.seen_m
+        · exact (Node.core_fields (fr.go w hw).1).2.2.2.2.2.2.1
+      · by_cases hx : x = m
+        · subst hx; exact .inr (hcm hne)
+        · exact absurd (Node.core_fields (fr.go x hx).1).2.2.2.2.2.2.2.1 hne
+      · by_cases hwm : w = m
+        · subst hwm; rw [fr.runs_m]; exact hw
+        · rw [(Node.core_fields (fr.go w hwm).1).2.2.2.2.2.2.2.2]; exact hw
+    exact (c04.trans ep.cr).trans c58
 
 /-! ## the `any` loop of `needs_update` -/
 
@@ -683,6 +719,7 @@ structure AnyPost (p : Prog) (s : State) (m : Nat) (l : List Nat) (r : State × 
   runRel : RunRel s r.1
   ss : SrcStatic p s → SrcStatic p r.1
   gf : GFI p s r.1
+  cr : CRI p s r.1
 
 theorem anySrc_spec {p : Prog} {u : State → Nat → State × Bool} {f : Nat} (hu : UpdOK p u f)
     {m : Nat} (hmf : m ≤ f) : ∀ (l : List Nat) (s : State), InvR p s → (s.get m).kind = .memo →
@@ -695,7 +732,7 @@ theorem anySrc_spec {p : Prog} {u : State → Nat → State × Bool} {f : Nat} (
     intro s h _ _ _ hnd _
     exact ⟨h, Frame.refl s m, rfl, fun _ => rfl, fun _ => ⟨fun _ hx => (by cases hx), hnd⟩,
       fun hc => (by cases hc), ValCh.of_val_eq (fun _ => rfl), RunRel.of_eq (fun _ => rfl), fun h => h,
-      GFI.refl p s⟩
+      GFI.refl p s, CRI.refl p s⟩
   | cons x l ih =>
     intro s h hk hr hlow hnd hl
     have hxs : x ∈ (s.get m).sources := hl x List.mem_cons_self
@@ -719,7 +756,7 @@ theorem anySrc_spec {p : Prog} {u : State → Nat → State × Bool} {f : Nat} (
     by_cases hc : (ch || (true && (s1.get m).st == .dirty)) = true
     · rw [if_pos hc]
       refine ⟨hp.inv, fr1, hp.obs, hp.running, fun h' => (by cases h'), fun _ hruns => ?_, hp.valCh,
-        hp.runRel, hp.ss, hp.gf⟩
+        hp.runRel, hp.ss, hp.gf, hp.cr⟩
       simp only at hruns ⊢
       by_cases hch : ch = true
       · have hv : (s.get x).ver < (s1.get x).ver := hp.ver hch
@@ -750,7 +787,7 @@ theorem anySrc_spec {p : Prog} {u : State → Nat → State × Bool} {f : Nat} (
         fun i => (ih'.running i).trans (hp.running i), fun h2 => ?_, ih'.just,
         hp.valCh.trans ih'.valCh fr1 ih'.frame hp.obs,
         hp.runRel.trans ih'.runRel (fun i hi => (fr1.clean i hi).1) (fun i hi => (ih'.frame.clean i hi).1),
-        fun h => ih'.ss (hp.ss h), hp.gf.trans ih'.gf⟩
+        fun h => ih'.ss (hp.ss h), hp.gf.trans ih'.gf, hp.cr.trans ih'.cr⟩
       have a2 := ih'.allClean h2
       refine ⟨fun y hy hky => ?_, a2.2⟩
       rcases List.mem_cons.1 hy with rfl | hy
@@ -840,7 +877,9 @@ theorem restamp_spec {p : Prog} {s : State} {m : Nat} (h : InvR p s) (hk : (s.ge
     fun o _ _ hd => .inl (by rw [← dE]; exact hd), ValCh.of_val_eq (fun i => (cf i).2.1),
     RunRel.of_eq (fun i => (cf i).2.2.2.2.2.2.2.2),
     fun hs => hs.mono (fun w y hy => by rw [(cf w).2.2.1] at hy; exact hy),
-    GFI.of_eq hlog (fun i => (cf i).2.1)⟩
+    GFI.of_eq hlog (fun i => (cf i).2.1),
+    CRI.of_same hlog (fun i => (cf i).2.2.2.2.2.2.1) (fun i => (cf i).2.2.2.2.2.2.2.1)
+      (fun i => (cf i).2.2.2.2.2.2.2.2)⟩
   refine ⟨hlen, fun i => (cf i).1, ?_, fun i => by rw [(cf i).2.2.2.2.2.2.2.1]; exact Nat.le_refl _,
     fun i _ => (cf i).2.2.2.2.2.2.2.1, ?_, fun hl i => (by rw [hlog]; exact hl i), fun i _ => hcore i,
     fun i _ hd => .inl (by rw [← dE]; exact hd), ?_, LogExt.of_eq hlog,
@@ -925,7 +964,7 @@ theorem upd_step {p : Prog} (hp : MemoOK p) {f : Nat} (hu : UpdOK p (upd p f) f)
           post.subs.trans cf.2.2.2.1, fun hc => (by rw [← cf.2.2.2.2.2.2.2.1]; exact post.ver hc),
           hobsD r2.1 post.frame post.obsD, ap.valCh.trans post.valCh fr1 post.frame ap.obs,
           ap.runRel.trans post.runRel (fun i hi => (fr1.clean i hi).1) (fun i hi => (post.frame.clean i hi).1),
-          fun h => post.ss (ap.ss h), ap.gf.trans post.gf⟩
+          fun h => post.ss (ap.ss h), ap.gf.trans post.gf, ap.cr.trans post.cr⟩
       · rw [if_neg hn]
         have hn' : need = false := by simpa using hn
         have ac := ap.allClean hn'
@@ -938,7 +977,7 @@ theorem upd_step {p : Prog} (hp : MemoOK p) {f : Nat} (hu : UpdOK p (upd p f) f)
           post.subs.trans cf.2.2.2.1, fun hc => (by cases hc), hobsD s2 post.frame post.obsD,
           ap.valCh.trans post.valCh fr1 post.frame ap.obs,
           ap.runRel.trans post.runRel (fun i hi => (fr1.clean i hi).1) (fun i hi => (post.frame.clean i hi).1),
-          fun h => post.ss (ap.ss h), ap.gf.trans post.gf⟩
+          fun h => post.ss (ap.ss h), ap.gf.trans post.gf, ap.cr.trans post.cr⟩
   · have hk' : ((s.get m).kind != .memo) = true := by
       cases hkk : (s.get m).kind <;> simp_all
     rw [hk']
